@@ -49,6 +49,23 @@ def digest(s: str) -> str:
         return "EXC:" + type(e).__name__ + ":" + str(e)[:80]
 
 
+def interpreter_state():
+    """Process-wide interpreter settings a transpilation has no business changing (and must restore if it touches them)."""
+    import builtins
+    import decimal
+    import gc
+    import locale
+    import random
+    import tempfile
+    import threading
+    import warnings
+
+    return (sys.getrecursionlimit(), os.getcwd(), sys.getswitchinterval(), gc.isenabled(), tuple(sys.path), len(warnings.filters),
+            decimal.getcontext().prec, locale.setlocale(locale.LC_ALL), threading.active_count(), sys.stdout is sys.__stdout__,
+            sys.stderr is sys.__stderr__, hash(random.getstate()), tempfile.tempdir, sys.dont_write_bytecode, hasattr(sys, "tracebacklimit"),
+            len(vars(builtins)), sys.getdefaultencoding(), sys.gettrace() is None, sys.getprofile() is None)
+
+
 def module_state():
     """Deep fingerprint of the module-level state of the transpiler / toolchain modules: every container (deep repr), every
     plain value (numbers, strings, tuples - a rebound counter), and every other object whose repr shows its state rather
@@ -89,6 +106,7 @@ def module_state():
                 n += 1
                 h.update(name.encode())
                 h.update(r.encode())
+    h.update(repr(interpreter_state()).encode())
     return h.hexdigest(), n
 
 
